@@ -138,7 +138,6 @@ def check_listing(ctx, st, s, cmd, times, t0, case):
         by_text.setdefault(e['gt_text'], []).append(i)
     last = -1
     prev = None
-    prev_amb = False
     pending = None
     for it in items[1:]:
         if it['kind'] == 'sep':
@@ -155,24 +154,32 @@ def check_listing(ctx, st, s, cmd, times, t0, case):
             ambiguous = len(cand) > 1
             idx = cand[0]
             if prev is not None:
-                gap = times[idx] - prev
-                near = abs(gap - ONE_S) <= 500
-                if (ambiguous or prev_amb) and near:
-                    ctx.count('listing_ambiguous_skipped')
-                elif gap > ONE_S and pending is None:
-                    ctx.violation('separator-missing', 'listing %r: gap %d us before %r without separator' % (cmd, gap, it['text'][:80]), case, gap_us=gap)
-                    return
-                elif gap <= ONE_S and pending is not None:
-                    ctx.violation('separator-spurious', 'listing %r: separator %ss though exact gap is %d us' % (cmd, pending, gap), case, gap_us=gap)
-                    return
-                elif pending is not None and not streams.within_one_unit(pending, gap):
-                    ctx.violation('separator-value', 'listing %r: separator says %ss, exact gap %d us' % (cmd, pending, gap), case, gap_us=gap)
-                    return
+                # several input lines may print alike within one unit of the time column: the listed line is any of them, and
+                # so was the one before.  A verdict needs every possible pairing to agree on it
+                verdicts = []
+                for pt in prev:
+                    for i in cand:
+                        gap = times[i] - pt
+                        if gap > ONE_S and pending is None:
+                            verdicts.append(('separator-missing', 'listing %r: gap %d us before %r without separator' % (cmd, gap, it['text'][:80]), gap))
+                        elif gap <= ONE_S and pending is not None:
+                            verdicts.append(('separator-spurious', 'listing %r: separator %ss though exact gap is %d us' % (cmd, pending, gap), gap))
+                        elif pending is not None and not streams.within_one_unit(pending, gap):
+                            verdicts.append(('separator-value', 'listing %r: separator says %ss, exact gap %d us' % (cmd, pending, gap), gap))
+                        else:
+                            verdicts.append(None)
+                if len(verdicts) > 1:
+                    ctx.count('listing_ambiguous_pairings')
+                if all(v is not None for v in verdicts):
+                    if len(verdicts) > 1 and any(abs(v[2] - ONE_S) <= 500 for v in verdicts):
+                        ctx.count('listing_ambiguous_skipped')
+                    else:
+                        ctx.violation(verdicts[0][0], verdicts[0][1], case, gap_us=verdicts[0][2])
+                        return
             elif pending is not None:
                 ctx.violation('separator-first', 'listing %r: separator before the first listed message' % cmd, case)
                 return
-            prev = times[idx]
-            prev_amb = ambiguous
+            prev = [times[i] for i in cand]
             last = idx
             pending = None
         elif it['kind'] in ('count', 'none_of', 'no_messages'):
